@@ -3,14 +3,15 @@ import re
 from tools import common as C
 from tools.gen import lines as L
 
-LEAN_MODULES = ["SCP.C01", "SCP.C04", "SCP.Termination"]
+LEAN_MODULES = ["SCP.C01", "SCP.C04", "SCP.Termination", "SCP.ParserTotal"]
 THEOREMS = ["SCP.C01.splitLines_length", "SCP.C01.splitLines_no_lf", "SCP.C01.splitLines_join",
             "SCP.C01.execute_total", "SCP.C01.runLines_append", "SCP.C01.slot_spec",
             "SCP.C04.runLines_length", "SCP.C04.execute_eq",
             "SCP.Lemmas.Termination.findMatch_count", "SCP.Lemmas.Termination.replaceRange_mu",
             "SCP.Termination.rulePass_mu", "SCP.Termination.ruleLoop_stable", "SCP.Termination.ruleLoop_model_fuel",
             "SCP.Termination.unitPass_mu", "SCP.Termination.unitLoop_stable", "SCP.Termination.model_fuel_suffices",
-            "SCP.Termination.gen_rules_ok", "SCP.Termination.gen_units_ok"]
+            "SCP.Termination.gen_rules_ok", "SCP.Termination.gen_units_ok",
+            "SCP.ParserTotal.parseExpr_total", "SCP.ParserTotal.parseExpr_consumes"]
 RULE = ("texts from four streams (random characters over a hostile alphabet incl. multi-byte, atoms, braces, long digit "
         "runs; well-formed lines of all kinds with one random corruption; a curated list of panic-prone shapes; "
         "multi-line texts with LF/CRLF/mixed/trailing separators) x language tags en, tr, unknown, empty x "
@@ -21,8 +22,8 @@ ASSUMPTIONS = ["line length <= 400 and <= 40 lines per text (stack depth and all
                "panic freedom of the Rust code is decided by the generators + catch_unwind, not by a theorem; the "
                "theorems cover the slot structure for every evaluator and the termination of the two rewrite loops of the MODEL "
                "(rule and unit-literal passes strictly decrease the number of live tokens when every pattern has >= 2 tokens, "
-               "which is re-decided on the regenerated tables); the regex scans, the variable loop and the parser of the Rust code "
-               "are watched by the timeout"]
+               "which is re-decided on the regenerated tables) and of the MODEL parser on every token list (parseExpr_total: its fuel is "
+               "never exhausted); the regex scans and the variable-substitution loop are watched by the timeout only"]
 TRUSTED = ["SC/Session.lean corresponds to src/session.rs + execute_session (slot counts compared on every generated text)"]
 
 ALPHA = list("0123456789") * 3 + list("abcdefxyzkMGTPZYob") + list(" " * 8) + list("+-*/()=%#.,:;[]{}_!?'&^|<>\"\\~`@") + \
